@@ -1,5 +1,5 @@
 (* Properties_C08.v — hostname registration is probe-backed and consistent with its notifications. *)
-From QV Require Import Base Fields SrcFacts Msg SrcDecisions Sim Hostname HostnameProofs HostnameInv.
+From QV Require Import Base Fields SrcFacts Msg SrcDecisions Sim Prober Hostname HostnameProofs HostnameInv HostnameAccept.
 Local Open Scope Z_scope.
 
 (* clause "while it is not registered it answers no queries": no handler invocation of an unregistered hostname
@@ -66,3 +66,40 @@ Theorem C08_broadcasts_are_probes now h ev m :
   In (ESendAll m) (snd (host_handle now h ev)) -> exists nm, is_host_probe nm m = true.
 Proof. exact (host_broadcasts_are_probes now h ev m). Qed.
 Print Assumptions C08_broadcasts_are_probes.
+
+(* ------------------------------------------------------------------ the whole property, over whole runs
+   Hostname.mon_hostname is the acceptor written from the text of C08 (and C17): it follows a script together with
+   everything observed after each operation and rejects when - a send is not the expected probe for the next
+   candidate (1), - the object is registered without a full undisturbed 2 s since the latest probe for exactly that
+   name (2), - the registered name differs from the last change notification (3), - a conflict is not followed by a
+   probe for the next candidate (6), - a change notification is missing, spurious or carries another value (9), - a
+   reply differs from the C17 specification (7).  For EVERY script of delivered messages, exact advances, advances
+   leaving what is due at t pending and late firings (advance targets within the kernel's fuel), it accepts the run
+   of the model of hostname.cpp under the virtual-time kernel. *)
+Theorem C08_every_run_is_accepted fuel rawlocal ifs ops :
+  Forall (HostnameAccept.op_ok fuel) ops -> mon_hostname rawlocal ifs ops (host_run fuel rawlocal ifs ops) = None.
+Proof. exact (host_run_accepted fuel rawlocal ifs ops). Qed.
+Print Assumptions C08_every_run_is_accepted.
+
+(* the acceptor is not vacuous: it accepts the real run of a conflict followed by a registration under "vm-2", and
+   rejects the same run when the registration comes 1 ms early or under the conflicted name *)
+Example C08_acceptor_discriminates :
+  let vm := [118; 109]%N in
+  let nm (k : N) := host_candidate vm k in
+  let conflict := mkMessage (A4 1%N) 5353%N 0%N true false [] [set_addr (A4 9) (set_type 1 (set_name (Some (nm 1%N)) default_record))] in
+  let ops := [ADeliver conflict; AAdv 2000] in
+  let probe (k : N) := add_query (mkQuery (Some (nm k)) T_AAAA false) (add_query (mkQuery (Some (nm k)) T_A false) default_message) in
+  Forall (HostnameAccept.op_ok 100) ops /\
+  host_run 100 vm [] ops =
+    [[OSendAll 0 (probe 1%N); OPoll OBJ false (Some (nm 1%N))];
+     [OSendAll 0 (probe 2%N); OPoll OBJ false (Some (nm 2%N))];
+     [OSignal 2000 OBJ SIG_hostnameChanged (PBytes (Some (nm 2%N))); OPoll OBJ true (Some (nm 2%N))]] /\
+  mon_hostname vm [] ops
+    [[OSendAll 0 (probe 1%N); OPoll OBJ false (Some (nm 1%N))];
+     [OSendAll 0 (probe 2%N); OPoll OBJ false (Some (nm 2%N))];
+     [OSignal 1999 OBJ SIG_hostnameChanged (PBytes (Some (nm 2%N))); OPoll OBJ true (Some (nm 2%N))]] <> None /\
+  mon_hostname vm [] ops
+    [[OSendAll 0 (probe 1%N); OPoll OBJ false (Some (nm 1%N))];
+     [OPoll OBJ false (Some (nm 1%N))];
+     [OSignal 2000 OBJ SIG_hostnameChanged (PBytes (Some (nm 1%N))); OPoll OBJ true (Some (nm 1%N))]] <> None.
+Proof. vm_compute. repeat split; try discriminate. repeat constructor. Qed.
